@@ -3,7 +3,7 @@ import os, re, subprocess, sys
 from vlib import common as C
 from vlib.simlib import SIM_WRAPS
 
-# clean (exit 0) at seeds 1..5 quick on 2026-09-26 with the 17-scenario catalogue + generated b1o orders + observer / atrack / asrcv scripts
+# clean (exit 0) at seeds 1..5 quick on 2026-09-26 with the 19-scenario catalogue + generated b1o / b1u orders + observer / atrack / asrcv / asrcvu scripts
 MANIFEST = {
     "category": "proof",
     "text": "PROOF for the helper layer, the send-path skeleton, Observe registration and two containers of the Block layer, FAULT ENUMERATION for the catalogue. Proved in Lean for every "
@@ -31,7 +31,12 @@ MANIFEST = {
             "(coap_handle_request_put_block in SINGLE_BODY mode, coap_block_build_body, coap_block_delete_lg_srcv): "
             "lg_srcv_ledger_sound (EVERY sequence of Block1 requests -- any order, repeats, the final block early and again -- : "
             "nothing released twice, live objects = exactly lg_srcv + body + last_token at any time, nothing live once it is "
-            "deleted), lg_srcv_failure_drops_state (an answer 5.00 leaves no transfer state), lg_srcv_restart_succeeds. "
+            "deleted), lg_srcv_failure_drops_state (an answer 5.00 leaves no transfer state), lg_srcv_restart_succeeds; the "
+            "lg_srcv model also covers a transfer to the UNKNOWN resource, where the lg_srcv keeps a copy of the URI path "
+            "(second request of the set-up; released first by coap_block_delete_lg_srcv): lg_srcv_setup_failure_atomic / "
+            "lg_srcv_uri_path_failure (the lg_srcv or the path copy cannot be allocated: 5.00, no lg_srcv, the ledger exactly as "
+            "before -- the lg_srcv is not yet in the session's list and is released by itself), all lg_srcv theorems hold with "
+            "and without the path copy. "
             "M is tied to the compiled code by running generated "
             "helper scripts under every single failing request index (and sampled pairs) on both and comparing return values, request "
             "counts, PDU bytes, alloc_size, queues, the session's reference count, the subscriber list, the request kept with a subscription "
@@ -39,26 +44,34 @@ MANIFEST = {
             "coap_block_new_lg_crcv / track_fetch_observe / coap_block_delete_lg_crcv and coap_handle_request_put_block / "
             "coap_block_delete_lg_srcv directly (src/coap_block.c is #included by the harness) under every single failing request "
             "index: return values, request counts, count and entries of the token list, received ranges / total / body length / "
-            "no_more_seen / last_token of the lg_srcv, trace. NOT proved, enumerated only (OBSERVATION of the real code against the property text, no theorem): the 17 scenarios "
+            "no_more_seen / last_token of the lg_srcv (`asrcvu`: the same against the unknown resource, plus whether the path "
+            "copy is there), trace. NOT proved, enumerated only (OBSERVATION of the real code against the property text, no theorem): the 19 scenarios "
             "uri, pdu, request/response, Block1, Block2, observe, set-up/tear-down, OSCORE, 5.08, /.well-known/core of a 17-resource "
             "server (block-wise, with filters), hand-built Block1 upload without Size1 (in and out of order), hand-written Block2 "
             "server without Size2 (no ETag / ETag / changing ETag), block-wise observe, cache entries with app data, async, observer life "
             "cycle (FETCH registration with payload, re-registration under a new token, second subscription, deregistration by an "
             "unknown token, resource deleted while observed), FETCH observations with the client's block handling on (small body, "
             "2500-byte body sent block-wise, coap_cancel_observe of both; a cancel that failed because of the failing request is "
-            "repeated and must then succeed), and the five hand-built Block1 requests in GENERATED orders with repeated blocks "
-            "(b1o.<order>: the final block early, again before the gap is filled, a block after the end) are run on "
-            "the real code with every single allocation request failing (about 2500 runs; thorough: every pair, capped at 40000 per scenario, 1500 per generated order), "
+            "repeated and must then succeed), an OSCORE-protected observation whose token is used AGAIN while its association is "
+            "alive (oscobs: registration, re-registration under the same token, coap_cancel_observe -- the association is "
+            "refreshed, not created; observation only, the OSCORE layer is not modelled), requests to a resource that answers "
+            "4.01 + Echo until the request carries the option (echo: the client block layer's check_freshness repeats GET / PUT "
+            "with a body / FETCH observation / its cancel, sized so that the copy has to grow for the option and for the body), "
+            "the five hand-built Block1 requests in GENERATED orders with repeated blocks "
+            "(b1o.<order>: the final block early, again before the gap is filled, a block after the end), and hand-built Block1 "
+            "transfers to the UNKNOWN resource alone and interleaved with a transfer to /put in fixed and generated orders "
+            "(b1u.<pairs>) are run on "
+            "the real code with every single allocation request failing (about 3600 runs; thorough: every pair, capped at 40000 per scenario, 1500 per generated order, 8000 / 6000 for oscobs / echo), "
             "each followed by a canary exchange on the same contexts, and "
             "judged by ASan/UBSan, the verified ledger monitor on the REAL allocation trace, LSan, PDU-consumed evidence, the canary, "
             "and SESSION-REFERENCE ACCOUNTING after the canary: every session's reference count equals the number of its holders "
             "(application, subscriptions, async entries, send-queue nodes) and every server session nothing holds is reclaimed "
             "once the session timeout has passed in virtual time (a leaked reference is invisible to the ledger: tear-down drops it); "
             "this searches for a failing (scenario, k) and validates nothing beyond what it executes.",
-    "note": "Twenty-three libcoap defects found and fixed on the way (KNOWN_FINDINGS.txt, fixed: property=C18; the last three: "
-            "coap_cancel_observe sent the cancellation of a large FETCH without its body when the body could not be set up, a "
-            "coap_cancel_observe that failed could never be repeated, an lg_crcv set up from a sent PDU kept its lg_xmit reference: "
-            "use after free in coap_cancel_observe); no open "
+    "note": "Twenty-six libcoap defects found and fixed on the way (KNOWN_FINDINGS.txt, fixed: property=C18; the last three: "
+            "coap_handle_request_put_block did not check the copy of the URI path of a Block1 transfer to the unknown resource "
+            "(NULL dereference in the next look-up), check_freshness leaked the copy of the request when the Echo option could "
+            "not be inserted, and repeated a request WITHOUT its body when the body could not be copied); no open "
             "finding. The ledger theorem of the lg_crcv assumes the discipline of track_fetch_observe's callers (block numbers of "
             "one lg_crcv only go up; outside it the real code leaks tokens WITHOUT any allocation failure -- Echo repeat in the "
             "middle of a block-wise FETCH --, not this property's subject; memory safety is proved without the assumption). TCP/TLS/WS "
@@ -75,7 +88,8 @@ REQUIRED_THEOREMS = ["failure_atomic", "no_leak_on_failure", "send_consumes_pdu"
                      "observer_refs_balanced", "observer_refs_count", "add_observer_spec", "createSub_spec", "deleteObserver_spec",
                      "pduDuplicate_live", "addObserver_balanced", "add_observer_succeeds_with_memory",
                      "obs_token_cnt_within_list", "track_realloc_failure_atomic", "lg_crcv_ledger_sound", "lg_srcv_ledger_sound",
-                     "lg_srcv_failure_drops_state", "lg_srcv_restart_succeeds", "lg_crcv_new_succeeds_with_memory"]
+                     "lg_srcv_failure_drops_state", "lg_srcv_restart_succeeds", "lg_crcv_new_succeeds_with_memory",
+                     "lg_srcv_setup_failure_atomic", "lg_srcv_uri_path_failure"]
 RULE = ("(1) helper-layer scripts `ahelp k1 k2 <ops>`: random sequences (4..16 calls) of coap_pdu_init / add_token / add_option "
         "(ascending numbers, lengths on both sides of 12/13, 268/269) / add_data / pdu_resize / pdu_check_resize / delete_pdu / "
         "new_optlist+insert_optlist / add_optlist_pdu / delete_optlist / new_string|str_const|bin_const / delete / coap_send "
@@ -95,6 +109,8 @@ RULE = ("(1) helper-layer scripts `ahelp k1 k2 <ops>`: random sequences (4..16 c
         "More bit, the state dropped in between), no / exact / too small / too large Size1, token 0..8 bytes: return values, "
         "request counts, token list, lg_srcv fields and the allocation trace must be equal; against the property itself: no "
         "abort, ledger and LSan clean, never a count with a NULL list, a body handed over is the body sent; "
+        "(1c) `asrcvu`: the `asrcv` scripts against the UNKNOWN resource (the lg_srcv keeps a copy of the URI path: one more "
+        "request whenever a transfer starts), same comparison plus presence of the copy; "
         "(2) fault ENUMERATION of the catalogue scenarios (harness/allocfail.c): uri, pdu, rr (incl. error responses to requests with a query), b1, b2, obs, setup, osc, h508, "
         "wkc (12 more resources with attributes, GET /.well-known/core unfiltered / rt=temp* / if=core.p / no match, block-wise), "
         "b1raw (five hand-built 512-byte Block1 requests without Size1, in order and in the order 0,2,1,4,3, to a SINGLE_BODY "
@@ -104,9 +120,14 @@ RULE = ("(1) helper-layer scripts `ahelp k1 k2 <ops>`: random sequences (4..16 c
         "coap_async_trigger, timer; GET and a PUT whose payload the delayed call must still see), obsre (observer life cycle: FETCH registration with payload, the same request under a new "
         "token, a second subscription, deregistration by a token the server never saw, coap_delete_resource while observed), obsfetch "
         "(FETCH observations with the client's block handling on: 2-byte and 2500-byte body, notifications, coap_cancel_observe of both, "
-        "a cancel that failed because of the failing request repeated), b1o.<order> (the five hand-built Block1 requests in 2 fixed and "
-        "5 generated orders with repeated blocks; thorough 6): every single failing request index k (quick and thorough) and pairs (k, k2) (quick: a "
-        "seeded sample of 4000, thorough: every pair of a scenario up to 40000 per scenario, 1500 per generated order; a seeded sample beyond), each "
+        "a cancel that failed because of the failing request repeated), oscobs (OSCORE observation: registration, re-registration and "
+        "coap_cancel_observe under the SAME token: association refreshed), echo (resource demanding an Echo option: GET with 250 bytes "
+        "of options, PUT with 190 bytes of options and a 400-byte body, FETCH observation, its cancel, a short GET, each repeated by "
+        "check_freshness), b1o.<order> (the five hand-built Block1 requests in 2 fixed and "
+        "5 generated orders with repeated blocks; thorough 6), b1u.<pairs> (hand-built Block1 transfers to the unknown resource "
+        "and to /put, 2 fixed + 2 generated interleavings, thorough 4: the unknown-resource transfer first or second, final "
+        "block early, repeats, the /put transfer complete or left unfinished): every single failing request index k (quick and thorough) and pairs (k, k2) (quick: a "
+        "seeded sample of 4000, thorough: every pair of a scenario up to 40000 per scenario, 1500 per generated b1o / b1u order, 8000 of oscobs, 6000 of echo; a seeded sample beyond), each "
         "followed by a canary exchange, judged by ASan/UBSan, the Lean-verified ledger monitor on the real allocation trace, "
         "LSan, PDU-consumed evidence, 'a 2.xx body that claims to be complete is the body' (obsre: 'a notification is computed "
         "from the request the subscription was registered with'), the canary, and after the canary: reference count of every "
@@ -144,8 +165,9 @@ ASSUMPTIONS = ["PROVED only for the helper layer (PDU init/resize/token/option/d
                "lg_crcv model: lg_xmit == NULL, no body under reassembly; its ledger theorem is for call sequences inside the callers' "
                "discipline (`feasible`: block numbers registered for one lg_crcv only go up, block 0 again only while no later "
                "block is registered) -- the bounds theorem obs_token_cnt_within_list needs no such assumption",
-               "lg_srcv model: Block1 without BERT / Q-Block, COAP_BLOCK_SINGLE_BODY, blocks in any order allowed, one resource of "
-               "its own (no uri_path copy), no Request-Tag, one block size per transfer, tokens of at most 8 bytes of equal length "
+               "lg_srcv model: Block1 without BERT / Q-Block, COAP_BLOCK_SINGLE_BODY, blocks in any order allowed, ONE resource (of "
+               "its own, or the unknown resource with the uri_path copy; two transfers interleaved on one session are catalogue "
+               "scenarios b1u, not M), no Request-Tag, one block size per transfer, tokens of at most 8 bytes of equal length "
                "(the separate 2.31 copies a response without options: two requests)",
                "compiled Lean definitions agree with the kernel's reading of them"]
 SPEC_DECISIONS = ["D18a 'the next operation with memory available succeeds' is checked by a canary CON GET on the SAME contexts after the "
@@ -157,12 +179,19 @@ SPEC_DECISIONS = ["D18a 'the next operation with memory available succeeds' is c
 RUN_KW = {"timeout": 1800, "env": {"ASAN_OPTIONS": "detect_leaks=1:abort_on_error=0:exitcode=86:allocator_may_return_null=1:leak_check_at_exit=0"}}
 WRAPS = SIM_WRAPS + ["coap_malloc_type", "coap_realloc_type", "coap_free_type", "epoll_wait"]
 PAIR_CAP = 40000        # thorough: pairs per scenario (every pair below it, a seeded sample above)
-B1O_PAIR_CAP = 1500     # ... per generated b1o.<order> scenario (their single failures are all run)
+B1O_PAIR_CAP = 1500     # ... per generated b1o.<order> / b1u.<pairs> scenario (their single failures are all run)
+# ... of the scenarios added last (all 60 975 pairs of oscobs, echo and the two fixed b1u were run once by hand, design/C18.md):
+# a seeded sample keeps the thorough tier inside its 30 minutes
+SCN_PAIR_CAP = {"oscobs": 8000, "echo": 6000}
 SCENARIOS = ["uri", "pdu", "rr", "b1", "b2", "obs", "setup", "osc", "h508", "wkc", "b1raw", "b2raw", "obsblk", "cache", "async", "obsre",
-             "obsfetch"]
+             "obsfetch", "oscobs", "echo"]
 # parametrised scenario b1o.<digits>: the five hand-built Block1 requests of b1raw in a generated order (repeats allowed);
 # these two always run (the final block early, and again before the gap is filled / a repeated middle block, a block after the end)
 B1O_FIXED = ["b1o.0442130", "b1o.4400123312"]
+# parametrised scenario b1u.<pairs>: hand-built Block1 requests to TWO targets, interleaved as the pairs <target><block> say:
+# u = PUT /unk1 (served by the UNKNOWN-resource handler: the lg_srcv keeps a copy of the URI path), p = PUT /put.
+# These two always run: a transfer to the unknown resource alone, and one interleaved with a transfer to /put (final blocks early)
+B1U_FIXED = ["b1u.u0u1u2u3u4", "b1u.u0p0u4p4u1p1u2p2u3p3"]
 # visible outcome of every scenario when no request fails (k = 0)
 EXPECT0 = {
     "uri": "split0,u2o1,u2os0,p2o1,q2o1,ins1,olpdu1,path9,query8,str1111,rsz1,uri11,req0,rsp0,nack0,body0/0,put0/0",
@@ -181,6 +210,8 @@ EXPECT0 = {
     "cache": "ign1,ign1,cb1,key11,ent1,pdu313,bykey1,bypdu1,other1,req3,rsp3,c2.01,c2.05,c2.01,nack0,body0/0,put0/0",
     "async": "pending1,req6,rsp3,c2.05,c2.05,c2.05,nack0,body0/0,put0/0",
     "obsre": "subs1,notify1,subs2,notify1,subs1,notify1,delres1,req8,rsp9,c2.05,c2.05,c2.05,c2.05,c2.05,c2.05,c2.05,c2.05,c4.04,nack0,body0/0,put0/0",
+    "oscobs": "subs1,notify1,subs1,notify1,cancel1,subs0,notify0,req5,rsp5,c2.05,c2.05,c2.05,c2.05,c2.05,nack0,body0/0,put0/0",
+    "echo": "subs1,notify1,cancel1,subs0,req11,rsp6,c2.05,c2.05,c2.05,c2.05,c2.05,c2.05,nack0,body0/0,put0/0",
     "obsfetch": "subs1,notify1,subs2,notify1,cancel1,subs1,cancel1,subs0,notify0,req7,rsp7,c2.05,c2.05,c2.05,c2.05,c2.05,c2.05,c2.05,nack0,body0/0,put0/0",
 }
 
@@ -218,6 +249,47 @@ def gen_b1o(rng):
     if rng.random() < 0.3:
         order.append(rng.randrange(0, 5))
     return "b1o." + "".join(str(d) for d in order)
+
+
+def b1u_puts(spec):
+    """complete bodies handed to the two handlers when the blocks arrive as the pairs say (one lg_srcv per target)"""
+    seen, puts = {"u": set(), "p": set()}, 0
+    for i in range(0, len(spec), 2):
+        t = spec[i]
+        seen[t].add(int(spec[i + 1]))
+        if len(seen[t]) == 5:
+            puts += 1
+            seen[t] = set()
+    return puts
+
+
+def gen_b1u(rng):
+    """the five blocks of a body for the unknown resource (any order, half of them with the final block early, 0..2 repeated),
+    two thirds interleaved with a transfer to /put (all of it or its first blocks only: a transfer left unfinished), the
+    unknown-resource transfer starting first in 60 % -- its lg_srcv is then set up while session->lg_srcv is still empty"""
+    def one(t, n):
+        perm = [0, 1, 2, 3, 4]
+        if rng.random() < 0.6:
+            rng.shuffle(perm)
+            if rng.random() < 0.5 and perm[-1] == 4:
+                i = rng.randrange(0, 4)
+                perm[i], perm[4] = perm[4], perm[i]
+        order = perm[:n]
+        for _ in range(rng.choice([0, 0, 1, 2])):
+            j = rng.randrange(0, len(order))
+            order.insert(rng.randint(j + 1, len(order)), order[j])
+        return [t + str(d) for d in order]
+    us = one("u", 5)
+    ps = one("p", rng.choice([5, 5, 2, 3])) if rng.random() < 0.66 else []
+    out = []
+    if ps and rng.random() >= 0.6:
+        out.append(ps.pop(0))
+    else:
+        out.append(us.pop(0))
+    while us or ps:
+        src = us if (us and (not ps or rng.random() < 0.5)) else ps
+        out.append(src.pop(0))
+    return "b1u." + "".join(out[:20])
 
 
 def extract(ctx):
@@ -419,6 +491,12 @@ def generate(ctx, escalate=False):
         o = gen_b1o(rng)
         if o not in scenarios:
             scenarios.append(o)
+    scenarios += B1U_FIXED
+    nb1u = len(scenarios) + (4 if thorough else 2)
+    while len(scenarios) < nb1u:
+        o = gen_b1u(rng)
+        if o not in scenarios:
+            scenarios.append(o)
     base = _run_direct(["alloc %s 0" % s for s in scenarios])
     counts = {}
     for s, b in zip(scenarios, base):
@@ -433,7 +511,7 @@ def generate(ctx, escalate=False):
     for s in scenarios:
         ps = [(s, a, b) for a in range(1, counts[s] + 1) for b in range(a + 1, counts[s] + 1)]
         ctx.cov["pairs_total"] += len(ps)
-        cap = B1O_PAIR_CAP if s.startswith("b1o.") else PAIR_CAP
+        cap = B1O_PAIR_CAP if s.startswith(("b1o.", "b1u.")) else SCN_PAIR_CAP.get(s, PAIR_CAP)
         if len(ps) > cap:                          # thorough: every pair of a scenario up to the cap, a seeded sample beyond
             ps = rng.sample(ps, cap)
         pairs += ps
@@ -455,10 +533,13 @@ def generate(ctx, escalate=False):
                 b = rng.randrange(a + 1, bound + 1)
                 out.append("ahelp %d %d %s" % (a, b, body))
     # (1b) Block-layer containers: the lg_crcv's list of Observe tokens, the lg_srcv's body and early-final-block token
-    for op, gen, nsc in (("atrack", gen_track, 240 if thorough else 40), ("asrcv", gen_srcv, 400 if thorough else 70)):
+    for op, gen, nsc in (("atrack", gen_track, 240 if thorough else 40), ("asrcv", gen_srcv, 400 if thorough else 70),
+                         ("asrcvu", gen_srcv, 200 if thorough else 30)):
         for _ in range(nsc):
             r = gen(rng)
             head, steps, bound = (r[0] + " ", r[1], r[2]) if len(r) == 3 else ("", r[0], r[1])
+            if op == "asrcvu":
+                bound += len(steps)          # one more request (the copy of the URI path) whenever a transfer starts
             body = head + " ".join(steps)
             out.append("%s 0 0 %s" % (op, body))
             for k in range(1, bound + 1):
@@ -527,8 +608,8 @@ def symptoms(c):
     m = re.search(r"body(\d+)/(\d+),put(\d+)/(\d+)", out)
     if m and (int(m.group(2)) or int(m.group(4))):
         what["body"] = "the application was handed a truncated or wrong body as if it were complete (%s)" % m.group(0)
-    if all(k == 0 for k in ks) and scn.startswith("b1o."):
-        want = "put%d/0" % b1o_puts(scn[4:])
+    if all(k == 0 for k in ks) and scn.startswith(("b1o.", "b1u.")):
+        want = "put%d/0" % (b1o_puts(scn[4:]) if scn.startswith("b1o.") else b1u_puts(scn[4:]))
         if not out.endswith("nack0,body0/0," + want) or "fail" in out:
             what["baseline"] = "without any failing request the scenario's outcome is `%s`, expected `…nack0,body0/0,%s`" % (out, want)
     elif all(k == 0 for k in ks) and out != EXPECT0.get(scn):
@@ -596,7 +677,8 @@ def judge_block(c):
     in a list that is NULL, a wrong body handed over), then against M field by field"""
     i, m = c["impl"] or "", c["model"] or ""
     w = c["input"].split()
-    what = "the lg_crcv's list of Observe tokens" if w[0] == "atrack" else "the lg_srcv of a Block1 transfer"
+    what = ("the lg_crcv's list of Observe tokens" if w[0] == "atrack" else "the lg_srcv of a Block1 transfer" +
+            (" to the unknown resource" if w[0] == "asrcvu" else ""))
     if i.startswith("crash"):
         return ("spec", "%s under failing request(s) %s (%s): the real code aborted (%s)" % (what, w[1:3], site_of(i), i))
     if i == "bad-op" or m == "bad-op":
@@ -630,14 +712,14 @@ def judge(ctx, c):
         return judge_alloc(c)
     if op == "ahelp":
         return judge_help(c)
-    if op in ("atrack", "asrcv"):
+    if op in ("atrack", "asrcv", "asrcvu"):
         return judge_block(c)
     return None if (c["impl"] == "bad-op" and c["model"] == "bad-op") else ("tie", "unknown op")
 
 
 def nontrivial(c):
     i = c["impl"] or ""
-    return "fail=-" not in i and "fail=" in i or (c["input"].split()[0] in ("ahelp", "atrack", "asrcv") and c["input"].split()[1] != "0" and "rc=" in i)
+    return "fail=-" not in i and "fail=" in i or (c["input"].split()[0] in ("ahelp", "atrack", "asrcv", "asrcvu") and c["input"].split()[1] != "0" and "rc=" in i)
 
 
 def classify(c):
@@ -673,7 +755,7 @@ def search(ctx, tie_breaks, proof):
     out = []
     for c in tie_breaks[:20]:
         w = c["input"].split()
-        if w[0] in ("atrack", "asrcv"):
+        if w[0] in ("atrack", "asrcv", "asrcvu"):
             hd = 3 if w[0] == "atrack" else 7
             for n in range(1, len(w) - hd + 1):
                 for k in range(0, 3 * n + 6):
@@ -691,11 +773,11 @@ def search(ctx, tie_breaks, proof):
 def shrink(ctx, case):
     """helper scripts: delete ops while the implementation still contradicts the property; scenarios are already minimal (scenario, k)"""
     w = case["input"].split()
-    if w[0] not in ("ahelp", "atrack", "asrcv"):
+    if w[0] not in ("ahelp", "atrack", "asrcv", "asrcvu"):
         return case
     from vlib.runner import diff_side
     import props.C18 as me
-    hd = 7 if w[0] == "asrcv" else 3
+    hd = 7 if w[0] in ("asrcv", "asrcvu") else 3
     head = " ".join(w[:hd])
     best, ops = case, w[hd:]
     changed, rounds = True, 0
